@@ -14,7 +14,7 @@ from vf.ref import respformat
 
 ID = "C03"
 BOUNDS = {
-    "quick": "20 requests x every {sync, awaitable} assignment of <=4 sites x every completion order of the awaitables (complete) x early-release deviations <=1; identity adversary: <=1 address reuse of a dead FieldDetails on all-awaitable and single-awaitable assignments",
+    "quick": "23 requests (incl. two in which several fields await one shared future) x every {sync, awaitable} assignment of <=4 sites x every completion order of the awaitables (complete) x early-release deviations <=1; identity adversary: <=1 address reuse of a dead FieldDetails on all-awaitable and single-awaitable assignments",
     "thorough": "early-release deviations <=3; <=3 address reuses (cap 400000 executions per assignment)",
 }
 RULE = (
